@@ -216,10 +216,11 @@ def from_backend_params(cls, fchans=None, obs_length=300, sample_rate=3e9, num_b
 
 META = {
     'technique': 'static analysis: symbolic value analysis (FORMULA/AGREE over exact rational normal forms, affine-sequence domain)',
-    'level': 'Decides from the source, for every input, that the frequency/time grids, index<->frequency conversion, '
-             'derived quantities, unit helpers, backend-parameter formulas and constructor routes compute the real-valued '
-             'functions stated in the property (30 formula obligations, both orientations by case analysis). '
-             'Floating-point rounding (strict monotonicity, half-channel ties) is not decided.',
+    'level': 'Decides from the source, for every input, that the frequency/time grids, index<->frequency conversion, derived '
+             'quantities, unit helpers, backend-parameter formulas and constructor routes compute the real-valued functions '
+             'stated in the property (30 formula obligations, both orientations by case analysis). Floating-point rounding '
+             '(strict monotonicity, half-channel ties) is not decided. Also decided (UNITARG sweep): every parameter '
+             'documented as float-or-Quantity is unit-converted before it is used in arithmetic.',
     'note': 'Real arithmetic instead of IEEE floats; numpy linspace/arange/round/append modelled by their documented semantics; '
             'astropy Quantity treated as a number in base units.',
 }
